@@ -102,7 +102,8 @@ class C01(SMSpec):
                     + [mkjob("S4", 3, 1, variant=5, default_acts=True), mkjob("S8", 3, 1, ext=False, variant=2, default_acts=True)]
                     + [mkjob("S12", 3, 1, variant=1)])
         return ([mkjob(s, 4, 2, variant=1) for s in ("S1", "S3", "S4", "S5")]
-                + [mkjob(s, 2, 3, ext_per_iter=2, nsn_depth=2, variant=2, double_nsn=True) for s in ("S1", "S3", "S4", "S5")]
+                + [mkjob(s, 2, 3, ext_per_iter=2, nsn_depth=2, variant=2, double_nsn=True) for s in ("S1", "S4")]
+                + [mkjob(s, 2, 2, ext_per_iter=2, nsn_depth=2, variant=2, double_nsn=True) for s in ("S3", "S5")]
                 + [mkjob("S12", 4, 2, variant=1), mkjob("S11", 6, 1, ext=False, variant=2), mkjob("S8", 5, 1, ext=False, variant=1),
                    mkjob("S4", 3, 2, variant=5, default_acts=True)]
                 + [self.stepjob(s, 2, 1) for s in ("S1", "S3", "S4", "S5", "S8")])
